@@ -965,6 +965,13 @@ class Interp:
             if isinstance(v, RVec): return Slice(v, 0, len(v.items))
             if isinstance(v, Cell): return Ptr(v)
             return args[0]
+        if trait in ('Add', 'Sub', 'Mul') and meth in ('add', 'sub', 'mul') and len(args) == 2:
+            a_, b_ = gg(args[0]), gg(args[1])
+            if isinstance(a_, int) and isinstance(b_, int) and not isinstance(a_, bool) and not isinstance(b_, bool):
+                # arithmetic through references (<&i32 as Add<i32>>::add ..): small counters, checked like the overflow-checked MIR ops
+                r_ = a_ + b_ if meth == 'add' else a_ - b_ if meth == 'sub' else a_ * b_
+                if abs(r_) >= 1 << 31: raise Panic('attempt to ' + meth + ' with overflow')
+                return r_
         if trait == 'Add' and meth == 'add' and isinstance(args[0], RString):
             return RString(list(args[0].chars) + list(gg(args[1]).chars))
         if trait == 'Default' and meth == 'default':
@@ -1179,6 +1186,25 @@ class Interp:
             for i_ in idx:
                 if self.truth(self.call_value(args[1], [xs[i_]])): return Agg('Option', 1, [i_])
             return Agg('Option', 0, [])
+        if meth in ('take_while', 'map_while') and isinstance(it, (SeqIter, PeekChars)):
+            # lazy on a position-based iterator (typically `iter.by_ref().take_while(..)`): the elements are consumed one by one,
+            # INCLUDING the first one that fails the predicate; the underlying iterator keeps the rest
+            out = []
+            while True:
+                if isinstance(it, SeqIter):
+                    if it.i >= len(it.items): break
+                    x = it.items[it.i]; it.i += 1
+                else:
+                    if it.pos >= len(it.chars): break
+                    x = it.chars[it.pos]; it.pos += 1
+                if meth == 'take_while':
+                    if not self.truth(self.call_value(args[1], [Ptr(Cell(x))])): break
+                    out.append(x)
+                else:
+                    r = self.call_value(args[1], [x])
+                    if r.variant != 1: break
+                    out.append(r.fields[0])
+            return SeqIter(out)
         if meth in ('take_while', 'skip_while', 'map_while'):
             xs = self.drain(it); out = []; i_ = 0
             if meth == 'map_while':
@@ -1270,6 +1296,12 @@ class Interp:
         if e('String::with_capacity'): return RString([])
         if e('str::char_indices'): return SeqIter([Agg('tuple', None, [i, c]) for i, c in enumerate(gg(args[0]).chars)])
         if e('Vec::insert'): g(args[0]).items.insert(args[1], args[2]); return ()
+        if e('Vec::swap_remove'):
+            v = g(args[0]); i_ = args[1]
+            if not (0 <= i_ < len(v.items)): raise Panic('swap_remove index out of bounds')
+            x = v.items[i_]; last = v.items.pop()
+            if i_ < len(v.items): v.items[i_] = last
+            return x
         if e('Vec::remove'):
             v = g(args[0])
             if args[1] >= len(v.items): raise Panic('removal index out of bounds')
